@@ -130,7 +130,7 @@ def run(
         if "Postcondition" in out and "violated" in out.lower():
             res.violated = "Postcondition"
             return res
-        raise TlcError(f"TLC failed (rc={p.returncode}): {' '.join(cmd)}\n{out[-4000:]}")
+        raise TlcError(f"TLC failed (rc={p.returncode}){' [StackOverflowError]' if 'StackOverflowError' in out else ''}: {' '.join(cmd)}\n{out[-4000:]}")
     res.ok = True
     return res
 
